@@ -1199,7 +1199,7 @@ TABLE = {
     "C02": [("R2.7", every_candidate_leaves_an_edge),
             ("R2.8", borrow("C03", "R3.2", None, "a build wrongly taken for a stamped one never advances changed_runid: the target and its dependents then re-run on every later redo-ifchange"))],
     "C13": [("R13.6", every_candidate_leaves_an_edge), ("R13.7", check_never_refreshes_stamps),
-            ("R13.8", borrow("C02", "R2.3", r"^add_dep\|", "a must-not-exist edge for a higher-priority .do candidate has to replace last build's row (and clear its deletion mark), or it is swept after the second build and a new candidate is never noticed"))],
+            ("R13.8", borrow("C02", "R2.3", r"^(add_dep\||sql-literals-found)", "a must-not-exist edge for a higher-priority .do candidate has to replace last build's row (and clear its deletion mark), or it is swept after the second build and a new candidate is never noticed"))],
     "C03": [("R3.12", memo_after_failed_test), ("R3.9", signal_death_is_failure), ("R3.10", uncertain_is_not_built_directly), ("R3.11", stamp_reads_to_eof)],
     "C05": [("R5.8", signal_death_is_failure),
             ("R5.9", borrow("C01", "R1.3", None, "the edge to a requested target must exist even when that target then fails, or the caller is not dirty next run and the failed target is never retried")),
@@ -1218,7 +1218,7 @@ TABLE = {
     "C08": [("R8.10", cheat_pipe_only_for_j0)],
     "C01": [("R1.9", check_never_refreshes_stamps),
             ("R1.10", borrow("C02", "R2.3", r"marked-edges-still-listed", "after an interrupted rebuild the marked edges are the only reason the target is dirty"))],
-    "C14": [("R14.7", borrow("C02", "R2.3", r"^add_dep\|", "a re-declared ifcreate edge must replace last build's row and clear its deletion mark")),
+    "C14": [("R14.7", borrow("C02", "R2.3", r"^(add_dep\||sql-literals-found)", "a re-declared ifcreate edge must replace last build's row and clear its deletion mark")),
             ("R14.6", borrow("C02", "R2.3", r"marked-edges-still-listed", "an ifcreate / always edge of an interrupted rebuild must still make the target dirty"))],
     "C09": [("R9.8", borrow("C12", "R12.2", None, "a lock id that is not registered turns a cycle into an endless fcntl wait")),
             ("R9.9", borrow("C08", "R8.1", None, "a counter written outside the accounting functions breaks the top-level self-test: an all-success build exits 1"))],
